@@ -10,7 +10,9 @@ import "time"
 // SubMergers(cols)[i](acc, col_i[po·width_i:]) — with all K fine periods falling into one coarse
 // period. Get(acc) must equal the reference aggregate of the raw points of the fine periods
 // po+k < K (a shift by k periods reads every column k periods further back, whatever the widths
-// of the columns and of W are); unshifted, of all K points.
+// of the columns and of W are); unshifted, of all K points. Column sets: the simple aggregates;
+// the same plus duplicates of two of them; the expression itself, twice (what a cluster leader
+// re-aggregates).
 
 func zxSubSpecs() []*zxSpec {
 	sumA, sumB, minA, maxB, cntA, avgA := zxAgg("SUM", "a"), zxAgg("SUM", "b"), zxAgg("MIN", "a"), zxAgg("MAX", "b"), zxAgg("COUNT", "a"), zxAgg("AVG", "a")
@@ -18,10 +20,12 @@ func zxSubSpecs() []*zxSpec {
 		sumA, minA, maxB, cntA, avgA,
 		zxBin("-", sumA, sumB), zxBin("+", sumA, maxB), zxBin("/", sumA, cntA), zxBin("*", avgA, cntA), zxBin("/", sumA, sumB),
 		zxBin("+", zxBin("-", sumA, sumB), avgA),
+		{kind: "LN", l: sumA},
+		{kind: "BOUT", l: sumA, lo: 0, hi: 10},
 	}
 }
 
-//zx:harness prop=C05+C06 id=E.X tier=quick mode=real shard=spec:11 K=3 thorough.K=4
+//zx:harness prop=C05+C06+C11 id=E.X tier=quick mode=real shard=spec:13,cols:3 K=3 thorough.K=4
 func zxC05SubMergers() {
 	specs := zxSubSpecs()
 	s := specs[vrtShape("spec", len(specs))]
@@ -36,6 +40,15 @@ func zxC05SubMergers() {
 	}
 	pts := zxPoints(K)
 	cols := []Expr{SUM(FIELD("a")), SUM(FIELD("b")), MIN(FIELD("a")), MAX(FIELD("b")), COUNT(FIELD("a")), AVG(FIELD("a"))}
+	switch vrtShape("cols", 3) {
+	case 1:
+		// two stored columns with the same expression (SELECT a, a AS total): each contributes once
+		cols = append(cols, SUM(FIELD("a")), AVG(FIELD("a")))
+	case 2:
+		// the stored column is the expression itself (a cluster leader re-aggregates what the
+		// partitions computed: its input columns are its output expressions)
+		cols = []Expr{s.build(), s.build()}
+	}
 	data := make([][]byte, len(cols))
 	for i, c := range cols {
 		cw := c.EncodedWidth()
